@@ -69,6 +69,9 @@ def cases(tier, seed):
     # a field switched on from exactly zero (in one gauge the potential is identically zero at t = 0, in the other it is not)
     for d, scr in itertools.product(devs[:1] if quick else devs[:2], (False, True)):
         out.append(dict(fam="run", dev=d, biased=False, screening=scr, shift=[2.5, -1.5], ramp=4.0, from_zero=True))
+    # screening (its convergence test must not see the gauge): static field, and transport current at zero field
+    for d, biased, B in ((devs[0], False, 0.35), (devs[0], True, 0.35), (devs[0], True, 0.0)) if quick else [(d, b, B) for d in devs[:2] for b in (False, True) for B in (0.35, 0.0) if b or B]:
+        out.append(dict(fam="run", dev=d, biased=biased, screening=True, shift=[40.0, 25.0], ramp=0.0, B=B, unscreened_seed=True))
     # the seed of the shifted run is a saved state of the unshifted problem, gauge-transformed by the user
     for d, biased, ramp in itertools.product(devs[:1] if quick else devs[:2], (False, True), (0.0, 0.5)):
         out.append(dict(fam="run", dev=d, biased=biased, screening=False, shift=[2.5, -1.5], ramp=ramp, seed_gauge="other"))
@@ -181,8 +184,10 @@ def run_op(case):
 
 
 # ---------------------------------------------------------------------------------------------
-def _shifted_A(x, y, z, *, B, x0, y0):
-    return np.stack([-B * (y - y0) / 2, B * (x - x0) / 2, np.zeros_like(x)], axis=1)
+def _shifted_A(x, y, z, *, B, x0, y0, Bs=None):
+    # the constant gauge offset is Bs/2 (y0, -x0); Bs = B unless given (so that a zero field can be shifted too)
+    Bs = B if Bs is None else Bs
+    return np.stack([-B * y / 2 + Bs * y0 / 2, B * x / 2 - Bs * x0 / 2, np.zeros_like(x)], axis=1)
 
 
 def _shifted_A_t(x, y, z, *, t, B, x0, y0, rate, B0=None):
@@ -204,7 +209,8 @@ def run_run(case):
     res = CaseResult()
     res.key = case_key(case)
     dev = zoo.device(case["dev"], terminals=case["biased"], lam=(1.0 if case["screening"] else 2.0))
-    B = 0.35
+    B = case.get("B", 0.35)
+    Bs = B if B else 0.35
     dt = 2.0**-6
     nsteps = 8
     kw = {}
@@ -221,7 +227,7 @@ def run_run(case):
     def potential(x0, y0):
         if case.get("ramp"):
             return tdgl.Parameter(_shifted_A_t, time_dependent=True, B=B, x0=x0, y0=y0, rate=case["ramp"], B0=(0.0 if case.get("from_zero") else None))
-        return tdgl.Parameter(_shifted_A, B=B, x0=x0, y0=y0)
+        return tdgl.Parameter(_shifted_A, B=B, x0=x0, y0=y0, Bs=Bs)
 
     def run(x0, y0, tag):
         A = potential(x0, y0)
@@ -231,7 +237,7 @@ def run_run(case):
         A_seed = potential(0.0, 0.0) if case.get("seed_gauge") == "other" else A
         s0 = tdgl.solve(dev, opts(f"seed-{tag}.h5", 0), applied_vector_potential=A_seed, **kw)
         solver = tdgl.TDGLSolver(dev, opts(f"x-{tag}.h5", nsteps), applied_vector_potential=A, **kw)
-        c_user = np.array([B * y0 / 2, -B * x0 / 2])  # A(x0,y0) - A(0,0)
+        c_user = np.array([Bs * y0 / 2, -Bs * x0 / 2]) if not case.get("ramp") else np.array([B * y0 / 2, -B * x0 / 2])  # the constant offset
         chi = (solver.A_scale * c_user) @ dev.mesh.sites.T
         psi0 = np.exp(1j * chi)
         pinned = np.concatenate([t.site_indices for t in dev.terminal_info()]) if case["biased"] else np.array([], int)
